@@ -36,10 +36,10 @@ def show(t, style="minimal", lp="(", rp=")"):
     full: every binary node and every proposition parenthesised."""
     if t[0] == "p":
         s = show_prop(t)
-        return f"{lp}{s}{rp}" if style == "full" else s
+        return f"{lp}{s}{rp}" if style in ("full", "atoms") else s
     op, l, r = t
     ls, rs = show(l, style, lp, rp), show(r, style, lp, rp)
-    if style == "minimal":
+    if style in ("minimal", "atoms"):      # atoms: minimal grouping, but every proposition in (redundant) parentheses of its own
         if op == "and":
             if l[0] == "or":
                 ls = f"{lp}{ls}{rp}"
@@ -53,7 +53,7 @@ def show(t, style="minimal", lp="(", rp=")"):
 
 
 def printings(t):
-    out = [("minimal", show(t, "minimal")), ("full", show(t, "full")), ("spaced", show(t, "full", "( ", " )")),
+    out = [("minimal", show(t, "minimal")), ("full", show(t, "full")), ("spaced", show(t, "full", "( ", " )")), ("atoms", show(t, "atoms")),
            ("minimal-spaced", show(t, "minimal", " ( ", " ) ").strip())]
     seen, res = set(), []
     for k, s in out:
